@@ -83,7 +83,8 @@ def check_graph(g, spec, current, what):
         final = bool(spec["states"][i].get("final"))
         if (int(strip(str(a.get("peripheries", 1)))) == 2) != final:
             return "final-border", f"{what}: state {nm} final={final} drawn with peripheries={a.get('peripheries')}"
-        if strip(str(a.get("fillcolor"))) == ACTIVE or str(a.get("penwidth")) in ("2", '"2"'):
+        # the highlight uses the documented class attributes of DotGraphMachine (customisation points), not literals
+        if strip(str(a.get("fillcolor"))) == str(DotGraphMachine.state_active_fillcolor) or (a.get("penwidth") is not None and strip(str(a.get("penwidth"))) == str(DotGraphMachine.state_active_penwidth)):
             active.append(nm)
         lab = unesc(a.get("label", ""))
         lines = lab.split("\n")
